@@ -568,9 +568,32 @@ fn compute_lookup_polys<
                 final_poly_vecs[slot + 1].values[row] = prev - sum;
             }
         }
+
+        #[cfg(feature = "verif_hooks")]
+        if verif_hooks::SLDC_COMPENSATE.load(core::sync::atomic::Ordering::Relaxed) {
+            let t = final_poly_vecs[num_partial_lookups].values[last_lu_row];
+            final_poly_vecs[num_partial_lookups].values[first_lut_row + 1] -= t;
+            for row in last_lu_row..first_lut_row + 1 {
+                for slot in 1..num_partial_lookups + 1 {
+                    final_poly_vecs[slot].values[row] -= t;
+                }
+            }
+        }
     }
 
     final_poly_vecs
+}
+
+/// Knobs of an adversarial prover, compiled only with the `verif_hooks` feature and inactive
+/// unless switched on at run time by a test harness. They never affect the verifier.
+#[cfg(feature = "verif_hooks")]
+pub mod verif_hooks {
+    use core::sync::atomic::AtomicBool;
+
+    /// When set, `compute_lookup_polys` starts each table's Sum/LDC accumulator from the value
+    /// that makes it END at zero (it shifts the whole running sum by minus its honest final
+    /// value, beginning at the last SLDC polynomial of the row after the first LUT row).
+    pub static SLDC_COMPENSATE: AtomicBool = AtomicBool::new(false);
 }
 
 /// Computes lookup polynomials for all challenges.
